@@ -1,0 +1,15 @@
+// +build verif
+
+package ipv4
+
+import "github.com/brewlin/net-protocol/protocol/network/hash"
+
+// VerifReset re-draws the process-global identifier table and hash IV from
+// pkg/rand, so that a simulated run does not depend on the runs before it.
+func VerifReset() {
+	r := hash.RandN32(1 + buckets)
+	for i := range ids {
+		ids[i] = r[i]
+	}
+	hashIV = r[buckets]
+}
